@@ -430,6 +430,8 @@ def read_batches(w):
             extra = {k: kw.pop(k) for k in list(kw) if k not in w.names}
             extra.pop("t", None)
             want_extra = {"kattr": 8 if (w.variant.get("sow_override") and w.farmer_kind != "none") else 7 + w.expect_k}
+            if getattr(w, "no_consts", False):
+                want_extra = {}
             if w.rsc:
                 want_extra["rsc"] = 5
             if extra != want_extra or set(kw) != set(w.names):
@@ -708,6 +710,11 @@ def do_step(w, ev):
                     elif cfg["bmode"] == "count":
                         kw["num_batches"] = cfg["bval"]
                 consts = {"kattr": 7} if w.farmer_kind == "none" else None
+                if w.variant.get("resow_drop_consts") and w.farmer_kind == "none":
+                    # the constants are given to the first sow only: a later sow without them passes none (as a direct run
+                    # without constants= would); only used by histories that never grow
+                    w.no_consts = (a == "resow")
+                    consts = None if a == "resow" else consts
                 if w.variant.get("sow_override") and w.farmer_kind != "none":
                     # a constant given to the sow call wins over the farmer's stored constant of the same name
                     # (as constants= given to Runner.run_combos does); only used by histories that never grow
